@@ -35,8 +35,12 @@ def norm_v1_inc(case, line):
     C12 about the kinds of terminal errors, C16 / C06 about agreement between entry points (which their oracles compare
     on the implementation itself).  So the variant of a v1 result that is flagged incomplete is not part of a projection."""
     mode = case.split(" ")[0]
-    if (mode in ("v1b", "v1s", "v1fh", "v1fa") or (mode == "auto" and line.startswith("V1 "))) and " i1c0" in line:
-        return V1_INC.sub("ERR <incomplete>", line)
+    if mode in ("v1b", "v1s", "v1fh", "v1fa") or (mode == "auto" and line.startswith("V1 ")):
+        if " i1c0" in line:
+            return V1_INC.sub("ERR <incomplete>", line)
+        # likewise whether an invalid port was rejected by the crate's own check (`None`) or by `u16::from_str`
+        # (`Some(ParseIntError)`): the kind names the element (C12); the payload is nobody's statement
+        return re.sub(r"(Invalid(?:Source|Destination)Port)\((?:crate|std)\)", r"\1", line)
     return line
 
 
